@@ -153,6 +153,8 @@ type Op struct {
 	// Payload, when the memo was built from a structured payload: the intended parse result (Coq term)
 	MemoCoq string
 	Note    string
+	// Twin: also run the packet on a branch where the orbiter account has been emptied (C11)
+	Twin bool
 }
 
 // ---------------------------------------------------------------------------------------------
@@ -439,8 +441,34 @@ type OpObs struct {
 	QueryE  bool
 	After   Snapshot
 	Before  Snapshot
+	Twin *TwinObs
 	// WiringDisagrees: the wired stack and the instrumented instance behaved differently (no fault injected)
 	WiringDisagrees string
+}
+
+// TwinObs is the same packet on the same state with an emptied orbiter account.
+type TwinObs struct {
+	Class      int
+	Ack        []byte
+	Trace      []Call
+	StateAfter StateObs
+}
+
+func (w *W) twin(ctx sdk.Context, op Op) *TwinObs {
+	cctx, _ := ctx.CacheContext()
+	sink := ModAddr("verif-sink")
+	for _, d := range w.Denoms {
+		b := w.S.App.BankKeeper.GetBalance(cctx, core.ModuleAddress, d)
+		if b.IsPositive() {
+			if err := w.S.App.BankKeeper.SendCoins(cctx, core.ModuleAddress, sink, sdk.NewCoins(b)); err != nil {
+				return nil
+			}
+		}
+	}
+	var obs RecvObs
+	rec := w.In.With(op.Plan, op.Lie, func() { obs = w.recvOn(cctx, w.In.Stack, op.Pkt, false) })
+	classify(op.Pkt, &obs, rec.Trace)
+	return &TwinObs{Class: obs.Class, Ack: obs.Ack, Trace: rec.Trace, StateAfter: obs.After.State}
 }
 
 // RunOp executes one operation on ctx (which is advanced in place when the operation commits).
@@ -450,6 +478,9 @@ func (w *W) RunOp(ctx sdk.Context, op Op) (o OpObs) {
 	switch op.Kind {
 	case "recv":
 		faulty := len(op.Plan) > 0 || op.Lie != 0
+		if op.Twin {
+			o.Twin = w.twin(ctx, op)
+		}
 		var inst RecvObs
 		rec := w.In.With(op.Plan, op.Lie, func() { inst = w.recvOn(ctx, w.In.Stack, op.Pkt, false) })
 		classify(op.Pkt, &inst, rec.Trace)
